@@ -56,6 +56,14 @@ type Workload struct {
 	JoinLeave   int    `json:"join_leave"`
 	SmallQ      int    `json:"small_q"` // callers with a tiny queue and a slow reader
 	MetaSubs    int    `json:"meta_subs"`
+	// realm with TopicEventHistoryConfigs on every topic of the burst (exact),
+	// on the prefix "c08." and on the wildcard "c08."
+	History        bool `json:"history"`
+	SoleChurners   int  `json:"sole_churners"`   // subscribe/unsubscribe as the ONLY holder of an exact subscription
+	PrefixChurners int  `json:"prefix_churners"` // the same with a prefix subscription "c08."
+	WildChurners   int  `json:"wild_churners"`   // the same with a wildcard subscription "c08."
+	StallMs        int  `json:"stall_ms"`        // the small-queue caller stops reading for that long (once)
+	DupReg         int  `json:"dup_reg"`         // sessions that REGISTER a shared procedure twice, UNREGISTER once
 }
 
 type rng struct{ s uint64 }
@@ -91,6 +99,25 @@ func genWorkload(seed uint64, profile string) Workload {
 	case "smallq":
 		w.Callees, w.Procs = 1, 1
 		w.Callers, w.CallsPer, w.Chunks, w.SmallQ = r.in(1, 2), r.in(3, 8), r.in(10, 30), 1
+	case "stall":
+		// the caller's queue stays full for more than a second while the callee keeps yielding
+		w.Callees, w.Procs = 1, 1
+		w.Callers, w.CallsPer, w.Chunks, w.SmallQ = 1, r.in(1, 3), r.in(20, 50), 1
+		w.StallMs = r.in(1150, 1700)
+	case "history":
+		// subscriptions that keep an event history: unsubscribing as the only holder and as one of several
+		w.History = true
+		w.Publishers, w.Topics, w.PubMsgs = r.in(2, 3), r.in(1, 2), r.in(80, 250)
+		w.Subscribers, w.Churners, w.ChurnRounds = r.in(1, 2), r.in(1, 2), r.in(8, 25)
+		w.SoleChurners = 1
+		switch r.in(0, 2) {
+		case 0:
+			w.PrefixChurners = 1
+		case 1:
+			w.WildChurners = 1
+		default:
+			w.PrefixSubs = 1
+		}
 	default: // mixed
 		w.Profile = "mixed"
 		w.Publishers, w.Topics, w.PubMsgs = r.in(1, 4), r.in(1, 3), r.in(30, 200)
@@ -99,6 +126,18 @@ func genWorkload(seed uint64, profile string) Workload {
 		w.Callers, w.CallsPer, w.Chunks = r.in(1, 3), r.in(20, 80), r.in(0, 8)
 		w.Bystanders, w.MetaCalls, w.JoinLeave = r.in(0, 2), r.in(3, 15), r.in(0, 6)
 		w.MetaSubs = r.in(0, 1)
+	}
+	// (drawn after the older fields so that older seeds keep their workloads)
+	switch w.Profile {
+	case "mixed", "pubsub":
+		w.History = r.in(0, 1) == 1
+		w.SoleChurners = r.in(0, 1)
+	}
+	switch w.Profile {
+	case "mixed", "rpc":
+		if w.Shared {
+			w.DupReg = r.in(0, 1)
+		}
 	}
 	return w
 }
@@ -115,6 +154,9 @@ type cli struct {
 	log    []string
 	lossy  bool
 	slow   time.Duration
+	stallAfter int           // stop reading once, after that many RESULTs ...
+	stallFor   time.Duration // ... for that long; afterwards read at full speed
+	nres       int
 	mu     sync.Mutex
 	unsub  map[wamp.ID]wamp.ID // UNSUBSCRIBE request -> subscription
 	unreg  map[wamp.ID]wamp.ID // UNREGISTER request -> registration
@@ -262,6 +304,11 @@ func (c *cli) reader() {
 				c.log = append(c.log, "O invocation-foreign")
 			}
 		case *wamp.Result:
+			c.nres++
+			if c.stallFor > 0 && c.nres == c.stallAfter {
+				time.Sleep(c.stallFor)
+				c.slow = 0
+			}
 			from, y := 0, 1
 			if len(x.Arguments) >= 2 {
 				if a, ok := asInt(x.Arguments[0]); ok {
@@ -343,8 +390,17 @@ func topicURI(i int) wamp.URI { return wamp.URI(fmt.Sprintf("c08.t%d", i)) }
 func procURI(i int) wamp.URI  { return wamp.URI(fmt.Sprintf("c08.p%d", i)) }
 
 func runBurst(w Workload) (clients []*cli, st stats, err error) {
-	rt, e := router.NewRouter(&router.Config{RealmConfigs: []*router.RealmConfig{{
-		URI: "c08", AnonymousAuth: true, AllowDisclose: true, EnableMetaKill: true}}}, dropLogger{&st.Dropped})
+	rc := &router.RealmConfig{URI: "c08", AnonymousAuth: true, AllowDisclose: true, EnableMetaKill: true}
+	if w.History {
+		for t := 0; t <= w.Topics; t++ {
+			rc.TopicEventHistoryConfigs = append(rc.TopicEventHistoryConfigs,
+				&router.TopicEventHistoryConfig{Topic: topicURI(t), MatchPolicy: wamp.MatchExact, Limit: 5})
+		}
+		rc.TopicEventHistoryConfigs = append(rc.TopicEventHistoryConfigs,
+			&router.TopicEventHistoryConfig{Topic: "c08.", MatchPolicy: wamp.MatchPrefix, Limit: 5},
+			&router.TopicEventHistoryConfig{Topic: "c08.", MatchPolicy: wamp.MatchWildcard, Limit: 5})
+	}
+	rt, e := router.NewRouter(&router.Config{RealmConfigs: []*router.RealmConfig{rc}}, dropLogger{&st.Dropped})
 	if e != nil {
 		return nil, st, e
 	}
@@ -416,12 +472,34 @@ func runBurst(w Workload) (clients []*cli, st stats, err error) {
 	}
 
 	// ---- churning subscribers: subscribe / unsubscribe while events flow
+	type churnSpec struct {
+		topic wamp.URI
+		match string
+	}
+	var churns []churnSpec
 	for i := 0; i < w.Churners; i++ {
+		churns = append(churns, churnSpec{topicURI(r.in(0, max(w.Topics-1, 0))), ""})
+	}
+	// the only holder of its subscription: the extra topic t<Topics> has no other subscriber
+	for i := 0; i < w.SoleChurners; i++ {
+		churns = append(churns, churnSpec{topicURI(w.Topics + i), ""})
+	}
+	for i := 0; i < w.PrefixChurners; i++ {
+		churns = append(churns, churnSpec{"c08.", wamp.MatchPrefix})
+	}
+	for i := 0; i < w.WildChurners; i++ {
+		churns = append(churns, churnSpec{"c08.", wamp.MatchWildcard})
+	}
+	for _, cs := range churns {
 		c := mk("churner", bigQ)
 		if c == nil {
 			return
 		}
-		topic := topicURI(r.in(0, max(w.Topics-1, 0)))
+		topic := cs.topic
+		opts := wamp.Dict{}
+		if cs.match != "" {
+			opts["match"] = cs.match
+		}
 		rounds := w.ChurnRounds
 		pause := r.in(0, 2)
 		scripts.Add(1)
@@ -433,7 +511,7 @@ func runBurst(w Workload) (clients []*cli, st stats, err error) {
 			<-start
 			for k := 0; k < rounds; k++ {
 				req := c.nextReq()
-				c.send(func(int) wamp.Message { return &wamp.Subscribe{Request: req, Topic: topic} })
+				c.send(func(int) wamp.Message { return &wamp.Subscribe{Request: req, Topic: topic, Options: opts} })
 				m := c.await(func(m wamp.Message) bool { s, ok := m.(*wamp.Subscribed); return ok && s.Request == req }, 5*time.Second)
 				if m == nil {
 					return
@@ -454,13 +532,18 @@ func runBurst(w Workload) (clients []*cli, st stats, err error) {
 					return
 				}
 				atomic.AddInt64(&st.SubRounds, 1)
+				// stay unsubscribed for a moment: what is published now must not arrive
+				if k%3 == 2 {
+					time.Sleep(time.Duration(100+40*(k%4)) * time.Microsecond)
+				}
 			}
 		}()
 	}
 
 	// ---- callees
 	procs := max(w.Procs, 1)
-	for i := 0; i < w.Callees; i++ {
+	for i := 0; i < w.Callees+w.DupReg; i++ {
+		dup := i >= w.Callees
 		c := mk("callee", bigQ)
 		if c == nil {
 			return
@@ -488,6 +571,9 @@ func runBurst(w Workload) (clients []*cli, st stats, err error) {
 			})
 		}
 		proc := procURI(i % procs)
+		if dup {
+			proc = procURI(0)
+		}
 		opts := wamp.Dict{}
 		if w.Shared {
 			opts["invoke"] = "roundrobin"
@@ -511,6 +597,30 @@ func runBurst(w Workload) (clients []*cli, st stats, err error) {
 		}
 		reg, ok := register()
 		rounds := w.RegChurn
+		if dup {
+			// the same session asks for the same shared registration again (refused, or
+			// at least without effect), unregisters once and must then be left alone
+			rounds = 0
+			register()
+			if ok {
+				ureq := c.nextReq()
+				c.mu.Lock()
+				c.unreg[ureq] = reg
+				c.mu.Unlock()
+				rr := reg
+				c.send(func(int) wamp.Message { return &wamp.Unregister{Request: ureq, Registration: rr} })
+				c.await(func(m wamp.Message) bool {
+					switch x := m.(type) {
+					case *wamp.Unregistered:
+						return x.Request == ureq
+					case *wamp.Error:
+						return x.Request == ureq
+					}
+					return false
+				}, 5*time.Second)
+				ok = false
+			}
+		}
 		scripts.Add(1)
 		regChurn.Add(1)
 		if rounds > 0 {
@@ -573,7 +683,7 @@ func runBurst(w Workload) (clients []*cli, st stats, err error) {
 				if k%64 == 63 {
 					time.Sleep(20 * time.Microsecond)
 				}
-				t := rr.in(0, max(w.Topics-1, 0))
+				t := rr.in(0, max(w.Topics-1+w.SoleChurners, 0))
 				opts := wamp.Dict{}
 				if ack == 2 || (ack == 1 && k%3 == 0) {
 					opts["acknowledge"] = true
@@ -608,6 +718,10 @@ func runBurst(w Workload) (clients []*cli, st stats, err error) {
 		}
 		c.lossy = q != bigQ
 		c.slow = slow
+		if c.lossy && w.StallMs > 0 {
+			c.stallAfter = 3
+			c.stallFor = time.Duration(w.StallMs) * time.Millisecond
+		}
 		me := c.idx
 		n := w.CallsPer
 		callers = append(callers, c)
@@ -908,7 +1022,7 @@ func main() {
 	seed := flag.Uint64("seed", 1, "VERIF_SEED")
 	first := flag.Int("first", 0, "index of the first burst")
 	n := flag.Int("bursts", 10, "number of bursts")
-	profile := flag.String("profile", "mixed", "mixed|pubsub|rpc|progress|smallq")
+	profile := flag.String("profile", "mixed", "mixed|pubsub|rpc|progress|smallq|stall|history")
 	out := flag.String("out", "", "log file")
 	summary := flag.String("summary", "", "summary file (json lines)")
 	replay := flag.String("replay", "", "workload json to run instead of generating")
